@@ -6,14 +6,18 @@ package main
 // Families:
 //   chunking          same request under different read partitions (one byte per
 //                     read, random, all at once; ALL compositions for streams of
-//                     at most 12 bytes) as one Group on class,out,file; the
-//                     unchunked member is compared with the model
+//                     at most 12 bytes, each also with the last chunk delivered in
+//                     the same Read call as io.EOF; reads that return (0, nil)) as
+//                     one Group on class,out,file; the unchunked member and the
+//                     data-with-EOF / empty-read members are compared with the model
 //   truncate-corrupt  every truncation point and single-byte flip/insert/delete of
 //                     short streams; oracle with Go's own decoder: ok => the whole
 //                     stream is values+whitespace, json => output equals that of
 //                     the longest valid prefix of complete values (Group)
-//   io-error          reader failing at every offset; class must be json, output =
-//                     that of the values complete before the failure
+//   io-error          reader failing at every offset -- the error after the last bytes
+//                     or in the same Read call as the last bytes, whole / one byte per
+//                     read / random reads with empty reads; class must be json,
+//                     output = that of the values complete before the failure
 //   incremental       read schedule recorded: output of value k is written before
 //                     any byte beyond end(k)+1 (or the end of the chunk holding
 //                     it) has been served
@@ -194,6 +198,92 @@ func c03RandChunks(r *rand.Rand, n int) []int {
 	return c
 }
 
+// c03Sched is a read schedule: the sizes of the successive reads (a negative entry is a
+// Read that returns (0, nil)) and whether the Read handing out the last bytes returns the
+// terminal error (io.EOF or the I/O error) in the same call.
+type c03Sched struct {
+	ch      []int
+	dataErr bool
+}
+
+func (s c03Sched) String() string {
+	parts := make([]string, len(s.ch))
+	for i, c := range s.ch {
+		parts[i] = fmt.Sprint(c)
+		if c < 0 {
+			parts[i] = "(0,nil)"
+		}
+	}
+	t := "[" + strings.Join(parts, " ") + "]"
+	if s.dataErr {
+		t += " last bytes and the terminal error in ONE Read call"
+	}
+	return t
+}
+
+func (s c03Sched) file(name string, data []byte, ioErr bool) File {
+	ch := s.ch
+	if len(ch) == 0 && !s.dataErr {
+		ch = []int{1}
+	}
+	return File{Name: name, Data: data, IOErr: ioErr, Chunks: ch, DataErr: s.dataErr}
+}
+
+// special says whether the schedule does something an os.File or a bytes.Reader never does
+func (s c03Sched) special() bool {
+	if s.dataErr {
+		return true
+	}
+	for _, c := range s.ch {
+		if c < 0 {
+			return true
+		}
+	}
+	return false
+}
+
+// c03Zeros inserts runs of 1-3 empty reads into a schedule (at least one run; also in
+// front of the first and after the last chunk, i.e. right before the terminal error).
+func c03Zeros(r *rand.Rand, ch []int) []int {
+	var out []int
+	p := pick(r, []float64{0.1, 0.3, 0.6})
+	forced := r.Intn(len(ch) + 1)
+	for i := 0; i <= len(ch); i++ {
+		if i == forced || chance(r, p) {
+			for k := 1 + r.Intn(3); k > 0; k-- {
+				out = append(out, -1)
+			}
+		}
+		if i < len(ch) {
+			out = append(out, ch[i])
+		}
+	}
+	return out
+}
+
+// c03SpecialScheds: schedules for a stream of n bytes that exercise the corners of the
+// io.Reader contract: data together with the terminal error (everything in one call, one
+// byte per call, only the last byte, everything but the first byte, random), empty reads,
+// and both at once.
+func c03SpecialScheds(r *rand.Rand, n int) []c03Sched {
+	res := []c03Sched{
+		{nil, true}, // one Read: all bytes and the error
+		{c03Ones(n), true},
+		{c03RandChunks(r, n+1), true},
+		{c03Zeros(r, c03RandChunks(r, n+1)), false},
+		{c03Zeros(r, c03RandChunks(r, n+1)), true},
+	}
+	if n >= 2 {
+		res = append(res, c03Sched{[]int{n - 1, 1}, true}, c03Sched{[]int{1, n - 1}, true})
+		k := 1 + r.Intn(n-1)
+		res = append(res, c03Sched{[]int{k, n - k}, true})
+	}
+	if chance(r, 0.5) {
+		res = append(res, c03Sched{c03Zeros(r, c03Ones(n)), chance(r, 0.5)})
+	}
+	return res
+}
+
 func c03Meta(prog string, data []byte, extra ...string) map[string]string {
 	return metaProg(prog, append([]string{"stream", strconv.Quote(string(data))}, extra...)...)
 }
@@ -256,6 +346,9 @@ func c03IncOracle(data []byte, chunks []int) func(Resp) string {
 	var bounds []int
 	s := 0
 	for _, c := range chunks {
+		if c < 0 {
+			continue // a Read that returned (0, nil)
+		}
 		s += c
 		if s >= len(data) {
 			break
@@ -496,7 +589,7 @@ func init() {
 
 	register(Family{
 		Name: "chunking", Prop: "C03",
-		Rule: "a stream (valid or not) run unchunked (compared with the model) and under read partitions: one byte per read, random partitions, one read, and for streams of at most 12 bytes ALL compositions; one Group per stream on class,out,file; also two-file runs; non-trivial = distinct (stream, partition) with output",
+		Rule: "a stream (valid or not) run unchunked (compared with the model) and under read partitions: one byte per read, random partitions, one read, and for streams of at most 12 bytes ALL compositions, each also with the last chunk delivered in the same Read call as io.EOF; reads that return (0, nil); one Group per stream on class,out,file, the members with data+EOF or empty reads are also compared with the model; also two-file runs (data+EOF at the end of the first file); non-trivial = distinct (stream, partition) with output",
 		Gen: func(r *rand.Rand, tier string, emit func(Case)) {
 			gid := 0
 			group := func(prog string, data []byte, all bool, nrand int) {
@@ -505,21 +598,32 @@ func init() {
 				name := "in.json"
 				emit(Case{ID: g + "/whole", Req: RunReq(prog, nil, []File{{Name: name, Data: data}}, false), Fields: fields,
 					Meta: c03Meta(prog, data, "chunks", "unchunked"), Group: g, GroupFields: fields, Oracle: c03FaultOracle(name, data), NonTrivial: c03NT})
-				var parts [][]int
+				var parts []c03Sched
+				wholeReq := RunReq(prog, nil, []File{{Name: name, Data: data}}, false)
 				if all {
-					parts = c03Compositions(len(data))
+					// every composition, each also with its last chunk delivered together with io.EOF
+					for _, ch := range c03Compositions(len(data)) {
+						parts = append(parts, c03Sched{ch, false}, c03Sched{ch, true})
+					}
+					for j := 0; j < 6; j++ {
+						parts = append(parts, c03Sched{c03Zeros(r, c03RandChunks(r, len(data)+1)), j%2 == 0})
+					}
 				} else {
-					parts = append(parts, c03Ones(len(data)), []int{len(data) + 1})
+					parts = append(parts, c03Sched{c03Ones(len(data)), false}, c03Sched{[]int{len(data) + 1}, false})
 					for j := 0; j < nrand; j++ {
-						parts = append(parts, c03RandChunks(r, len(data)))
+						parts = append(parts, c03Sched{c03RandChunks(r, len(data)), false})
 					}
+					parts = append(parts, c03SpecialScheds(r, len(data))...)
 				}
-				for j, ch := range parts {
-					if len(ch) == 0 {
-						ch = []int{1}
+				for j, sc := range parts {
+					c := Case{ID: fmt.Sprintf("%s/%d", g, j), Req: RunReq(prog, nil, []File{sc.file(name, data, false)}, false),
+						Meta: c03Meta(prog, data, "chunks", sc.String()), Group: g, GroupFields: fields, ImplOnly: true, NonTrivial: c03NT}
+					if sc.special() && (!all || j%16 < 2) {
+						// the model's answer does not depend on the read schedule
+						c.ImplOnly, c.ModelReq, c.Fields = false, wholeReq, fields
+						c.Oracle = c03FaultOracle(name, data)
 					}
-					emit(Case{ID: fmt.Sprintf("%s/%d", g, j), Req: RunReq(prog, nil, []File{{Name: name, Data: data, Chunks: ch}}, false),
-						Meta: c03Meta(prog, data, "chunks", fmt.Sprint(ch)), Group: g, GroupFields: fields, ImplOnly: true, NonTrivial: c03NT})
+					emit(c)
 				}
 			}
 			// exhaustive compositions of short streams
@@ -581,13 +685,27 @@ func init() {
 						}
 						return ""
 					}})
-				for j := 0; j < 3; j++ {
-					ca, cb := c03RandChunks(r, len(a)+1), c03RandChunks(r, len(b)+1)
-					if j == 0 {
-						ca, cb = c03Ones(len(a)), c03Ones(len(b))
+				wholeReq := RunReq(prog, nil, []File{{Name: "a.json", Data: a}, {Name: "b.json", Data: b}}, false)
+				for j := 0; j < 7; j++ {
+					sa, sb := c03Sched{c03RandChunks(r, len(a)+1), false}, c03Sched{c03RandChunks(r, len(b)+1), false}
+					switch j {
+					case 0:
+						sa.ch, sb.ch = c03Ones(len(a)), c03Ones(len(b))
+					case 3: // the first file ends with data and io.EOF in one call
+						sa.dataErr = true
+					case 4:
+						sa.ch, sa.dataErr, sb.dataErr = nil, true, true
+					case 5:
+						sa.ch, sb.ch, sb.dataErr = c03Zeros(r, sa.ch), c03Zeros(r, sb.ch), chance(r, 0.5)
+					case 6:
+						sa.ch, sa.dataErr, sb.ch, sb.dataErr = c03Ones(len(a)), true, c03Ones(len(b)), true
 					}
-					emit(Case{ID: fmt.Sprintf("%s/%d", g, j), Req: RunReq(prog, nil, []File{{Name: "a.json", Data: a, Chunks: ca}, {Name: "b.json", Data: b, Chunks: cb}}, false),
-						Meta: c03Meta(prog, a, "second", strconv.Quote(string(b)), "chunks", fmt.Sprint(ca, cb)), Group: g, GroupFields: fields, ImplOnly: true})
+					c := Case{ID: fmt.Sprintf("%s/%d", g, j), Req: RunReq(prog, nil, []File{sa.file("a.json", a, false), sb.file("b.json", b, false)}, false),
+						Meta: c03Meta(prog, a, "second", strconv.Quote(string(b)), "chunks", sa.String()+" / "+sb.String()), Group: g, GroupFields: fields, ImplOnly: true}
+					if sa.special() || sb.special() {
+						c.ImplOnly, c.ModelReq, c.Fields = false, wholeReq, fields
+					}
+					emit(c)
 				}
 			}
 		},
@@ -657,7 +775,7 @@ func init() {
 
 	register(Family{
 		Name: "io-error", Prop: "C03",
-		Rule: "the reader fails with an I/O error after every prefix of a stream (also under one-byte reads): class must be json naming the file, and the output must equal (Group) the output of the clean run on the values complete at the failure (composites at their closing bracket, scalars only once a following byte was read); compared with the model; non-trivial = some value was processed before the failure",
+		Rule: "the reader fails with an I/O error after every prefix of a stream -- the error in a Read call of its own or in the SAME call as the last bytes (all bytes at once, one byte per read, random reads, with reads that return (0, nil)): class must be json naming the file, and the output must equal (Group) the output of the clean run on the values complete at the failure (composites at their closing bracket, scalars only once a following byte was read); compared with the model; non-trivial = some value was processed before the failure",
 		Gen: func(r *rand.Rand, tier string, emit func(Case)) {
 			name := "pipe.json"
 			nt := func(i Resp) bool { return i["out"] != "-" && i["out"] != "" }
@@ -695,12 +813,31 @@ func init() {
 						Meta: c03Meta(prog, data, "fault", fmt.Sprintf("I/O error after %d bytes", k)), Oracle: oracle, NonTrivial: nt}
 					c.Group, c.GroupCheck = g, c03PrefixCheck
 					emit(c)
-					if chance(r, 0.3) {
+					plainReq := c.Req
+					variant := func(sc c03Sched, what string) {
 						c2 := c
-						c2.Req = RunReq(prog, nil, []File{{Name: name, Data: data, IOErr: true, Chunks: c03Ones(len(data))}}, false)
-						c2.ImplOnly = true
-						c2.Meta = c03Meta(prog, data, "fault", fmt.Sprintf("I/O error after %d bytes, one byte per read", k))
+						c2.Req = RunReq(prog, nil, []File{sc.file(name, data, true)}, false)
+						c2.ModelReq = plainReq // the model's answer does not depend on the read schedule
+						c2.Meta = c03Meta(prog, data, "fault", fmt.Sprintf("I/O error after %d bytes, %s", k, what), "chunks", sc.String())
 						emit(c2)
+					}
+					// the error in the same Read call as the last bytes (legal for an io.Reader)
+					variant(c03Sched{nil, true}, "all the bytes and the error in one Read call")
+					if chance(r, 0.3) {
+						variant(c03Sched{c03Ones(len(data)), false}, "one byte per read")
+					}
+					if chance(r, 0.3) {
+						variant(c03Sched{c03Ones(len(data)), true}, "one byte per read, the last byte together with the error")
+					}
+					if chance(r, 0.3) {
+						variant(c03Sched{c03RandChunks(r, len(data)+1), true}, "random reads, the last bytes together with the error")
+					}
+					if chance(r, 0.2) {
+						variant(c03Sched{c03Zeros(r, c03RandChunks(r, len(data)+1)), chance(r, 0.5)}, "random reads and empty reads")
+					}
+					if k >= 2 && chance(r, 0.2) {
+						j := 1 + r.Intn(k-1)
+						variant(c03Sched{[]int{j, k - j}, true}, "two reads, the second one together with the error")
 					}
 				}
 			}
@@ -709,7 +846,7 @@ func init() {
 
 	register(Family{
 		Name: "incremental", Prop: "C03",
-		Rule: "valid streams of 1-8 values read one byte per read or in random chunks of up to 64 bytes; the harness records (output length, input bytes served) at every write; oracle: the output of value k (up to its ENDFILE line) is complete before more than end(k)+1 bytes (rounded up to the chunk boundary) have been served; Group with the unchunked run (compared with the model)",
+		Rule: "valid streams of 1-8 values read one byte per read or in random chunks of up to 64 bytes, also with the last chunk in the same Read call as io.EOF and with reads that return (0, nil); the harness records (output length, input bytes served) at every write; oracle: the output of value k (up to its ENDFILE line) is complete before more than end(k)+1 bytes (rounded up to the chunk boundary) have been served; Group with the unchunked run (compared with the model)",
 		Gen: func(r *rand.Rand, tier string, emit func(Case)) {
 			for si := 0; si < tierN(tier, 1500, 15000); si++ {
 				var data []byte
@@ -722,10 +859,14 @@ func init() {
 				g := fmt.Sprintf("inc-%d", si)
 				emit(Case{ID: g + "/whole", Req: RunReq(c03IncProg, nil, []File{{Name: "s.json", Data: data}}, false), Fields: fields,
 					Meta: c03Meta(c03IncProg, data, "chunks", "unchunked"), Group: g, GroupFields: fields})
-				scheds := [][]int{c03Ones(len(data)), c03RandChunks(r, len(data)+1), c03RandChunks(r, len(data)+1)}
-				for j, ch := range scheds {
-					emit(Case{ID: fmt.Sprintf("%s/%d", g, j), Req: RunReq(c03IncProg, nil, []File{{Name: "s.json", Data: data, Chunks: ch}}, false),
-						Meta: c03Meta(c03IncProg, data, "chunks", fmt.Sprint(ch)), Group: g, GroupFields: fields, ImplOnly: true, Oracle: c03IncOracle(data, ch)})
+				scheds := []c03Sched{{c03Ones(len(data)), false}, {c03RandChunks(r, len(data)+1), false}, {c03RandChunks(r, len(data)+1), false},
+					{c03Ones(len(data)), true}, {c03RandChunks(r, len(data)+1), true}, {c03Zeros(r, c03RandChunks(r, len(data)+1)), chance(r, 0.5)}}
+				if si%3 == 0 {
+					scheds = append(scheds, c03Sched{nil, true}, c03Sched{c03Zeros(r, c03Ones(len(data))), si%2 == 0})
+				}
+				for j, sc := range scheds {
+					emit(Case{ID: fmt.Sprintf("%s/%d", g, j), Req: RunReq(c03IncProg, nil, []File{sc.file("s.json", data, false)}, false),
+						Meta: c03Meta(c03IncProg, data, "chunks", sc.String()), Group: g, GroupFields: fields, ImplOnly: true, Oracle: c03IncOracle(data, sc.ch)})
 				}
 			}
 		},
@@ -756,6 +897,8 @@ func init() {
 					emit(Case{ID: g, Req: RunReq(prog, nil, []File{{Name: name, Data: data}}, false), Fields: fields, Meta: meta,
 						Oracle: c03FaultOracle(name, data), Group: g, GroupFields: fields, NonTrivial: func(i Resp) bool { return true }})
 					emit(Case{ID: g + "/1", Req: RunReq(prog, nil, []File{{Name: name, Data: data, Chunks: c03Ones(len(data))}}, false), Meta: meta,
+						Group: g, GroupFields: fields, ImplOnly: true})
+					emit(Case{ID: g + "/whole+EOF", Req: RunReq(prog, nil, []File{{Name: name, Data: data, DataErr: true}}, false), Meta: meta,
 						Group: g, GroupFields: fields, ImplOnly: true})
 				}
 			}
